@@ -56,6 +56,7 @@ int muggle_ts_memory_pool_init(muggle_ts_memory_pool_t *pool, muggle_sync_t capa
 	pool->cached_free_pos = 0;
 	pool->free_idx = 0;
 
+	muggle_spinlock_init(&pool->alloc_spinlock);
 	muggle_spinlock_init(&pool->free_spinlock);
 
 	if (pool->data == NULL || pool->ptrs == NULL)
@@ -103,20 +104,25 @@ void* muggle_ts_memory_pool_alloc(muggle_ts_memory_pool_t *pool)
 {
 	void *data = NULL;
 
-	muggle_sync_t expected = pool->alloc_idx;
-	muggle_sync_t alloc_pos = 0;
-	do {
-		alloc_pos = MUGGLE_IDX_IN_POW_OF_2_RING(expected + 1, pool->capacity);
-		if (alloc_pos == pool->cached_free_pos) {
-			pool->cached_free_pos =
-				muggle_atomic_load(&pool->free_idx, muggle_memory_order_acquire);
-			if (alloc_pos == pool->cached_free_pos) {
-				return NULL;
-			}
-		}
+	// NOTE: allocators are serialized by alloc_spinlock. A compare-exchange on the
+	// masked alloc_idx cannot tell that the ring of free pointers has cycled
+	// completely since alloc_idx was read (ABA), and cached_free_pos must not be
+	// written by two allocators at once
+	muggle_spinlock_lock(&pool->alloc_spinlock);
 
-		data = (void*)(pool->ptrs[expected].ptr + 1);
-	} while (!muggle_atomic_cmp_exch_weak(&pool->alloc_idx, &expected, alloc_pos, muggle_memory_order_relaxed));
+	muggle_sync_t alloc_idx = pool->alloc_idx;
+	muggle_sync_t alloc_pos = MUGGLE_IDX_IN_POW_OF_2_RING(alloc_idx + 1, pool->capacity);
+	if (alloc_pos == pool->cached_free_pos) {
+		pool->cached_free_pos =
+			muggle_atomic_load(&pool->free_idx, muggle_memory_order_acquire);
+	}
+
+	if (alloc_pos != pool->cached_free_pos) {
+		data = (void*)(pool->ptrs[alloc_idx].ptr + 1);
+		pool->alloc_idx = alloc_pos;
+	}
+
+	muggle_spinlock_unlock(&pool->alloc_spinlock);
 
 	return data;
 }
